@@ -1216,7 +1216,15 @@ impl<'s, A: Pay + Send + Sync, B: Pay + Send + Sync> W<'s, A, B> {
             Err(_) => {}
         }
         match co {
-            Some(c) => {
+            Some(mut c) => {
+                // the surviving co-owner is the sole owner now: every uniqueness gate must say so
+                ensure!(
+                    c.is_unique() && Arc::get_mut(&mut c).is_some(),
+                    "C10,C03,C04",
+                    "thin",
+                    "after a refused into_thin the surviving sole owner is declined by is_unique/get_mut (count {})",
+                    Arc::count(&c)
+                );
                 ensure!(
                     Arc::count(&c) == 1,
                     "C10,C04",
